@@ -6,7 +6,8 @@ R12.2  reconstruction: dividend = quotient·divisor + remainder as an identity i
 R12.4  trimming respects the tolerance (exact rational scenarios with a remainder coefficient just above / below a concrete tolerance).
 R12.3  exit: the remainder has lower degree than the divisor; an exact multiple leaves the zero remainder; a divisor of higher
        degree than the dividend gives quotient 0 and remainder = dividend; the coefficient vectors are never empty.
-Not decided: the ε-proportional backward-error bound; behaviour when the tolerance is below rounding noise.
+R12.5  one rounded quotient digit (a relative perturbation δ of one scalar division): the defect of the reconstruction vanishes with δ.
+Not decided: the ε-proportional backward-error bound itself; behaviour when the tolerance is below rounding noise.
 """
 import sympy as sp
 
@@ -140,6 +141,54 @@ def run(F, run, tier):
                   "with zero tolerance 1e-10 and a remainder coefficient of magnitude %s, dividend − (quotient·divisor + remainder) has a coefficient of magnitude %s "
                   "(allowed %s): the trimming of the running remainder drops coefficients that are not negligible" % (sp.N(sp.Abs(eps), 3), sp.N(err, 3), sp.N(allowed, 3)),
                   sample="ε = %s: reconstruction error %s" % (label, sp.N(err, 3)))
+    # R12.5 one rounded quotient digit: the j-th scalar division of the run returns its exact value times (1 + δ), δ a generic positive symbol (the residue it
+    # leaves at the leading power is then not negligible and the elimination loop comes back to the same power).  A backward error proportional to the rounding
+    # unit means the defect dividend − (q·d + r), on the path taken with δ ≠ 0, vanishes as δ → 0; a quotient digit that is overwritten instead of corrected leaves O(1).
+    delta = sp.Symbol("delta_round", positive=True)
+
+    def rounded(j):
+        class RoundDiv(vecint.VInterp):
+            def ev_Bin(self, n):
+                v = super().ev_Bin(n)
+                if n["op"] == "Div" and self.body is dv and isinstance(v, sp.Basic) and not str(n.get("ty", "")).startswith(("u", "i")):
+                    k = self.shared.get("ndiv", 0)
+                    self.shared["ndiv"] = k + 1
+                    if k == j:
+                        return v * (1 + delta)
+                return v
+        return RoundDiv
+    n_round = 0
+    for la, lb in ((3, 2), (4, 2), (4, 3), (3, 1)) + (((5, 2), (5, 3)) if tier == "thorough" else ()):
+        if budget_hits >= 2:
+            break
+        a, b = PI.symbols("a", la), PI.symbols("b", lb)
+        for j in range(la - lb + 1):
+            inst = "%dx%d:digit=%d" % (la, lb, j)
+            try:
+                v, it = PI.call(F, dv, [PI.poly(a), PI.poly(b)], cls=rounded(j), seconds=60)
+            except vecint.IndexPanic as e:
+                run.fail("R12.5", dp, "panic:" + inst, where, "abstract execution with one rounded quotient digit panics: %s" % e.why)
+                continue
+            except sym.Unsupported as u:
+                if isinstance(u, vecint.Budget):
+                    budget_hits += 1
+                run.broken("R12.5", dp, inst, F.loc(dv, u.node if isinstance(u.node, dict) else None), str(u))
+                continue
+            if it.shared.get("ndiv", 0) <= j:
+                continue            # fewer scalar divisions than digits in this shape (constant divisor: one reciprocal)
+            if not (isinstance(v, sym.Variant) and v.name == "Ok" and isinstance(v.args[0], tuple) and len(v.args[0]) == 2):
+                run.fail("R12.5", dp, "result:" + inst, where, "divide returns %r" % (v,))
+                continue
+            q, r = PI.coeffs(v.args[0][0]), PI.coeffs(v.args[0][1])
+            recon = ref_add(ref_mul(q, b), r)
+            m = max(len(recon), len(a))
+            lim = [sp.simplify(((recon[i] if i < len(recon) else 0) - (a[i] if i < len(a) else 0)).subs(delta, 0)) for i in range(m)]
+            n_round += 1
+            run.check(all(x == 0 for x in lim), "R12.5", dp, "rounded-digit:" + inst, where,
+                      "with quotient digit %d off by a relative δ, dividend − (quotient·divisor + remainder) tends to %s as δ → 0 instead of 0: the correction the loop makes "
+                      "when it comes back to the same power is not added to the digit already stored" % (j, [str(x) for x in lim]), sample="%s: defect → 0 with δ" % inst)
+    if budget_hits < 2:
+        run.floor("R12.5", dp, "rounded digits", n_round, 8, where)
     if budget_hits < 2:
         run.floor("R12.2", dp, "length pairs", n_cases, 20, where)
     run.extra["length_bound"] = [LA, LB]
